@@ -538,6 +538,14 @@ class Layout:
             if fn not in self.funcs:
                 self.funcs.append(fn)
             return ["#define %s(X,Y) (X + Y)" % fn]
+        if k < 0.6:
+            # a #define continued with backslash-newline INSIDE a string literal (once or twice)
+            self.features.add("define-continued-inside-string")
+            n = "S%d" % r.randint(0, 99)
+            head = "#define %s%s " % (n, r.choice(["", "(X)"]))
+            if r.random() < 0.7:
+                return [head + '"first half, \\', 'second half"' + r.choice(["", " + \"x\""])]
+            return [head + '"one, \\', 'two, \\', 'three"']
         if k < 0.7:
             self.features.add("multi-line-define")
             kk = r.randint(2, 5)
